@@ -10,6 +10,25 @@ Proof. start. rewrite (items1_correct s (proj1 Hs)). simpl. split; [exact Hs | r
 Lemma rormap_refines m : refines_op (ROrMap m).
 Proof. start. rewrite (items1_correct s (proj1 Hs)). simpl. split; [exact Hs | reflexivity]. Qed.
 
+Lemma viewkeys_refines : refines_op ViewKeys.
+Proof. start. rewrite iterkeys_correct. split; [exact Hs | reflexivity]. Qed.
+
+Lemma viewvalues_refines : refines_op ViewValues.
+Proof. start. rewrite (items1_correct s (proj1 Hs)). simpl. split; [exact Hs | reflexivity]. Qed.
+
+Lemma viewitems_refines : refines_op ViewItems.
+Proof. start. rewrite (items1_correct s (proj1 Hs)). simpl. split; [exact Hs | reflexivity]. Qed.
+
+Lemma dictof_refines : refines_op DictOf.
+Proof. start. rewrite (items1_correct s (proj1 Hs)). simpl. split; [exact Hs | reflexivity]. Qed.
+
+Lemma truth_refines : refines_op Truth.
+Proof.
+  start. split; [exact Hs|]. simpl. do 3 f_equal.
+  pose proof (store_len s (proj1 Hs)) as H. unfold keys1 in H.
+  destruct (store s), (abs s) as [|[k v] r]; simpl in *; try reflexivity; discriminate.
+Qed.
+
 Lemma updatebad_refines l b : refines_op (UpdateBad l b).
 Proof.
   start. destruct (upd_pairs_ok l s [] (abs s) [] Hs) as [s1 [E1 [Hs1 Ha1]]].
